@@ -603,6 +603,98 @@ pub fn check_nested(case: &NestedCase, w: usize) -> CheckResult {
     Ok(CaseInfo::new(true).class("contenders-are-children-of-the-holder").inv(env.invocations))
 }
 
+/// Two invocations race for the lock while the harness stretches the first one's `listen(2)`
+/// (strace delay injection): whatever happens between the individual system calls of lock
+/// acquisition, at most one of the two may act.
+#[derive(Debug, Clone, Serialize, Deserialize)]
+pub struct ListenDelayCase {
+    pub first: Api,
+    pub second: Api,
+    /// delay injected on entry to listen(2) in the first invocation, ms
+    pub delay_ms: u64,
+    /// start of the second invocation after the first, ms
+    pub second_after_ms: u64,
+}
+
+pub fn listen_delay_cases(thorough: bool) -> Vec<ListenDelayCase> {
+    let mut v = vec![
+        ListenDelayCase { first: Api::Run, second: Api::Run, delay_ms: 1500, second_after_ms: 500 },
+        ListenDelayCase { first: Api::Update, second: Api::Run, delay_ms: 1500, second_after_ms: 600 },
+    ];
+    if thorough {
+        v.push(ListenDelayCase { first: Api::Run, second: Api::Delete, delay_ms: 2500, second_after_ms: 800 });
+        v.push(ListenDelayCase { first: Api::OutDeleteAll, second: Api::Run, delay_ms: 2000, second_after_ms: 400 });
+        v.push(ListenDelayCase { first: Api::Run, second: Api::UpdatePending, delay_ms: 3000, second_after_ms: 1200 });
+    }
+    v
+}
+
+pub fn check_listen_delay(case: &ListenDelayCase, w: usize) -> CheckResult {
+    if !std::path::Path::new("/usr/bin/strace").exists() {
+        return inconclusive("strace is not installed".into());
+    }
+    let cfg = ConfigSpec { targets: vec![TargetSpec::new("t0"), TargetSpec::new("t1")], ..Default::default() };
+    let mut env = Env::new(w);
+    env.install_config(&cfg);
+    let mut beh = BTreeMap::new();
+    beh.insert(("c0".to_string(), "t0".to_string()), Behavior { sleep_ms: 700, ..Default::default() });
+    beh.insert(("c0".to_string(), "t1".to_string()), Behavior { sleep_ms: 700, ..Default::default() });
+    bb::install_simple(&env, &cfg, &beh);
+    if let Err(e) = bb::commit_all_and_checkpoint(&mut env) {
+        return inconclusive(e);
+    }
+    let log = env.case_dir.join("points.log");
+    let inject = format!("inject=listen:delay_enter={}", case.delay_ms * 1000);
+    let trace_a = env.case_dir.join("trace-a");
+    let trace_b = env.case_dir.join("trace-b");
+    let _ = std::fs::create_dir_all(&trace_a);
+    let _ = std::fs::create_dir_all(&trace_b);
+    let a = env.mr_spawn_under(
+        &["/usr/bin/strace", "-f", "-o", "/dev/null", "-e", "trace=listen", "-e", &inject],
+        &case.first.args(),
+        &[("MRV_POINT_LOG", log.display().to_string()), ("MRV_TRACE", trace_a.display().to_string())],
+    );
+    std::thread::sleep(Duration::from_millis(case.second_after_ms));
+    let b = env.mr_spawn(&case.second.args(), &[("MRV_POINT_LOG", log.display().to_string()), ("MRV_TRACE", trace_b.display().to_string())]);
+    let ob = b.wait(Duration::from_secs(60));
+    let oa = a.wait(Duration::from_secs(60));
+    if oa.timed_out || ob.timed_out {
+        return inconclusive("an invocation did not end within 60 s".into());
+    }
+    // the delayed invocation was inside its acquisition while the other one went through it:
+    // one lock, so at most one of them may have got it
+    let points = read_points(&log);
+    let holders = check_exclusion(&points, None)?;
+    let acted_a = helper_starts(&trace_a) > 0;
+    let acted_b = helper_starts(&trace_b) > 0;
+    let both_ok = oa.code == Some(0) && ob.code == Some(0);
+    let first_attempt = points.iter().filter(|p| p.name == "lock.attempt").map(|p| p.ns).min();
+    let last_acquired = points.iter().filter(|p| p.name == "lock.acquired").map(|p| p.ns).max();
+    let overlapping = matches!((first_attempt, last_acquired), (Some(x), Some(y)) if y > x);
+    if both_ok && overlapping {
+        // both report success: then the second must have acquired after the first released
+        let mut acq: Vec<(u32, u128)> = points.iter().filter(|p| p.name == "lock.acquired").map(|p| (p.pid, p.ns)).collect();
+        let rel: Vec<(u32, u128)> = points.iter().filter(|p| p.name == "lock.release").map(|p| (p.pid, p.ns)).collect();
+        acq.sort_by_key(|x| x.1);
+        if acq.len() == 2 {
+            let first_release = rel.iter().find(|r| r.0 == acq[0].0).map(|r| r.1);
+            if first_release.map(|r| r > acq[1].1).unwrap_or(true) {
+                return viol_obs(
+                    "c14.listen-delay.both-inside",
+                    format!("{:?} (listen(2) delayed by {} ms) and {:?} (started {} ms later) were both past lock acquisition at the same time", case.first, case.delay_ms, case.second, case.second_after_ms),
+                    json!({"first": oa.brief(), "second": ob.brief()}),
+                );
+            }
+        }
+    }
+    for (o, acted, api) in [(&oa, acted_a, case.first), (&ob, acted_b, case.second)] {
+        if o.code != Some(0) && acted && api != Api::Run {
+            return viol("c14.loser.started", format!("{:?} ended with an error but started an executable", api));
+        }
+    }
+    Ok(CaseInfo::new(true).class("listen(2)-of-the-first-contender-delayed").class(&format!("holders={}", holders)).inv(env.invocations))
+}
+
 pub fn run(ctx: &mut Ctx) {
     ctx.hang_limit = Duration::from_secs(400);
     ctx.shrink_budget = Duration::from_secs(30);
@@ -621,9 +713,21 @@ a seventh of the cases use a lock address that cannot be bound at all (192.0.2.1
     ctx.drive("scenario", strategy, n, check);
     let n2 = ctx.n(12, 200);
     ctx.drive("nested", nested_strategy, n2, check_nested);
+    ctx.drive_all(
+        "listen-delay",
+        listen_delay_cases(ctx.thorough()),
+        "two invocations, the first with its listen(2) delayed by 1.5-3 s under strace, the second started 0.4-1.2 s after it",
+        check_listen_delay,
+    );
 }
 
 pub fn replay(ctx: &Ctx, label: &str, case: Value) -> Result<(), String> {
+    if label.contains("listen-delay") {
+        let c: ListenDelayCase = serde_json::from_value(case).map_err(|e| e.to_string())?;
+        let r = check_listen_delay(&c, 0);
+        ctx.replay_one(label, &c, r);
+        return Ok(());
+    }
     if label.contains("nested") {
         let c: NestedCase = serde_json::from_value(case).map_err(|e| e.to_string())?;
         let r = check_nested(&c, 0);
